@@ -420,6 +420,20 @@ def handshake_len(m, t, src, dst):
     return 2 + 16 * sum(1 for S in itertools.combinations(range(m), m - t) if S[0] == src and dst in S)
 
 
+def late_closes(m):
+    """Schedules in which the closes (and last messages) of lower-numbered peers arrive late: hold one directed link a->b
+    with a < b, or every link out of party a, for k rounds."""
+    from lib.sim import Hold
+    out = []
+    for a in range(m):
+        for b in range(a + 1, m):
+            out.append(('hold:%d>%d:30' % (a, b), lambda a=a, b=b: Hold({(a, b)}, 30)))
+        if a < m - 1:
+            out.append(('holdfrom:%d:30' % a, lambda a=a: Hold({(a, b) for b in range(m) if b != a}, 30)))
+            out.append(('holdinto:%d:30' % a, lambda a=a: Hold({(b, a) for b in range(m) if b != a}, 30)))
+    return out
+
+
 def lagging(m, p, k):
     """Hold every link into party p for k rounds (one lagging party)."""
     from lib.sim import Hold
@@ -465,6 +479,19 @@ class Session:
             _o(src, dst)
         net.on_close = on_close
         self.protos = dict(net.protos)
+        # exceptions that asyncio would only log (callbacks, tasks) are kept
+        self.loop_exc = []
+        loop = self.sim.loop
+        orig_h = loop.get_exception_handler()
+
+        def handler(loop_, context, _o=orig_h):
+            exc = context.get('exception')
+            if not getattr(self, 'closing', False) and not isinstance(exc, asyncio.CancelledError):
+                self.loop_exc.append('%s: %r' % (context.get('message', ''), exc))
+            if _o is not None:
+                _o(loop_, context)
+        loop.set_exception_handler(handler)
+        self.at_return = {}
 
     def run(self, spec, polfactory, barrier_log=None, idle_limit=400):
         starts = [len(e) for e in self.mon.events]
@@ -474,8 +501,34 @@ class Session:
         return res, starts
 
     def shutdown(self, polfactory):
+        """Real mpc.shutdown() on every party; at the instant it returns at party i the connections of i that are still
+        open are recorded (peers not deregistered in the runtime, connection ends still registered in the network)."""
+        net = self.sim.net
+
+        async def sd(mpc, mods, i):
+            await mpc.shutdown()
+            self.at_return[i] = {
+                'peers_not_deregistered': [p.pid for p in mpc.parties if p.pid != i and p.protocol is not None],
+                'connection_ends_registered': [b for (a, b) in net.protos if a == i],
+                'own_future_done': mpc.parties[i].protocol is None or mpc.parties[i].protocol.done()}
+            return True
         with quiet():
-            return self.sim.shutdown(polfactory())
+            return self.sim.run(sd, polfactory())
+
+    def callback_exceptions(self):
+        """Exceptions raised inside connection_lost / data_received / other loop callbacks so far."""
+        ev = [list(map(str, e)) for e in self.sim.net.events if e and e[0] in ('connection_lost_exc', 'loop_exc')]
+        return ev + [['asyncio', x] for x in self.loop_exc]
+
+    def check_shutdown_state(self, ctx, key0):
+        """Common post-shutdown conditions (C35; also used by C09): every connection closed at the moment shutdown
+        returns, no exception inside a connection callback."""
+        for i, st in sorted(self.at_return.items()):
+            if st['peers_not_deregistered'] or st['connection_ends_registered']:
+                ctx.violation('shutdown returned while connections are still open', {'case': key0, 'party': i, 'state': st})
+        exc = self.callback_exceptions()
+        if exc:
+            ctx.violation('exception-in-connection-callback', {'case': key0, 'exceptions': exc[:6]})
 
     def leftover(self):
         """Non-empty receive buffers {(owner, peer): {label: 'bytes'|'Future'}} and partial frames."""
@@ -488,6 +541,7 @@ class Session:
         return out
 
     def close(self):
+        self.closing = True
         with quiet():
             self.sim.close()
 
